@@ -414,7 +414,7 @@ def run(ctx):
         scs = procs.map(_scen, [(f'C06-{k}', r) for k, r in enumerate(recs)])
     finally:
         procs.close()
-    ctx.validate('TraceC06', scs)
+    ctx.validate('TraceC06', scs, jvms=8)
     ctx.notes['distinct_nontrivial'] = len({json.dumps(r, sort_keys=True) for r in recs})
     ctx.notes['tolerances'] = {'TolSolve': '2^-26 x scale of the solution'}
     return ctx.finish(rule=RULE, assumptions=[
@@ -434,5 +434,5 @@ def run(ctx):
 def replay(ctx, doc):
     sc = doc['scenario']
     sc2 = scenario(sc['id'], sc['recipe'])
-    ctx.validate('TraceC06', [sc2])
+    ctx.validate('TraceC06', [sc2], jvms=8)
     return ctx.finish(rule=RULE)
